@@ -63,7 +63,7 @@ StepPre(d, st) ==
          PosOK(d, st.from) /\ PosOK(d, st.to) /\ PosOK(d, st.gapFrom) /\ PosOK(d, st.gapTo)
          /\ st.from <= st.gapFrom /\ st.gapFrom <= st.gapTo /\ st.gapTo <= st.to
          /\ st.insert >= 0 /\ st.insert <= SliceSize(st.slice)
-         /\ ValidSlice(st.slice) /\ Canon(st.slice.toks)
+         /\ ValidSliceAround(st.slice, st.insert) /\ Canon(st.slice.toks)
     [] st.type \in {"addMark", "removeMark"} ->
          PosOK(d, st.from) /\ PosOK(d, st.to) /\ st.from <= st.to /\ MarkOK(st.mark)
     [] st.type \in {"addNodeMark", "removeNodeMark"} -> PosOK(d, st.pos) /\ MarkOK(st.mark)
